@@ -408,21 +408,21 @@ def stratified(ck: Check, n: int) -> list[dict]:
 
 def block(ck: Check | None = None, kinds=None) -> list[dict]:
     """thorough tier / search: kind × dialect × definition × place × required × default (none / null) ×
-    {strict-nullable, use-default, force-optional, strip-default-none} × where `required` is written;
-    the remaining dimensions are drawn"""
+    {strict-nullable, use-default, force-optional} × where `required` is written; the remaining
+    dimensions (strip-default-none, spelling options, kind of name, layout of the other file) are drawn"""
     rng = ck.rng.fork("ref-block") if ck is not None else None
     out = []
     for kind in kinds or c05.KINDS:
         for dl, target, place in cells():
             for inreq in (True, False):
                 for d in REF_DFLT:
-                    for sn, ud, fo, sd in itertools.product((False, True), repeat=4):
+                    for sn, ud, fo in itertools.product((False, True), repeat=3):
                         for via in (c05.VIAS if inreq else ["own"]):
                             bits = {t: False for t in c05.OPT_TAG}
-                            bits.update(sn=sn, ud=ud, fo=fo, sd=sd)
+                            bits.update(sn=sn, ud=ud, fo=fo)
                             name, variant = "plain", 0
                             if rng is not None:
-                                for t in ("kw", "fc", "sc", "uo", "us"):
+                                for t in ("sd", "kw", "fc", "sc", "uo", "us"):
                                     bits[t] = rng.chance(1, 5)
                                 bits["an"] = bits["fc"] and rng.chance(1, 2)
                                 name = rng.choice(c05.NAMES)
